@@ -66,7 +66,7 @@ static GLOBAL: Counting = Counting;
 //   * the honest cost per unit of (n + k), k = n, is 228 (dict_discard) .. 420 (x[i] = v on any collection:
 //     7 allocator calls and 840 bytes per loop iteration: a fresh scope per iteration, the evaluated
 //     index list, boxed l-values) .. 661 bytes (dict_union: a one-entry dict per iteration plus the
-//     rehash growth of the target).  BETA = 2000 leaves a factor 3 over the most expensive honest family
+//     rehash growth of the target) / 666 bytes (dk_multi: two lists growing under two dict keys).  BETA = 2000 leaves a factor 3 over the most expensive honest family
 //     and 4.8 over the typical one;
 //   * ALPHA covers the constant part (first growth steps, the range object);
 //   * GAMMA = 2: a make_mut copy allocates exactly len * ELEM for Vec payloads (measured ratio
@@ -121,6 +121,7 @@ fn elem_size(k: Kind) -> u64 {
     }
 }
 
+#[derive(Clone, Copy)]
 struct Family {
     name: &'static str,
     kind: Kind,
@@ -159,6 +160,9 @@ const LIST_SETUP: &str = "qx := [0] ** qn";
 const DICT_SETUP: &str = "qx := {}; for (i <- 0 til qn) qx[i] = i";
 const ROWS_SETUP: &str = "qx := []; for (i <- 0 til qr) qx append= ([0] ** qr)";
 const STRUCT_SETUP: &str = "struct Foo(fa, fb); qx := Foo([0] ** qn, 7)";
+const DK_SETUP: &str = "qx := {\"a\": [0] ** qn}";
+const DLD_SETUP: &str = "qx := {\"a\": [{\"b\": [0] ** qn}]}";
+const SD_SETUP: &str = "struct Foo(fa, fb); qx := Foo({\"a\": [0] ** qn}, 7)";
 
 fn families() -> Vec<Family> {
     let ls = "[len(qx), sum(qx)]";
@@ -266,7 +270,90 @@ fn families() -> Vec<Family> {
         Family { name: "struct_append", kind: Kind::List, setup: STRUCT_SETUP, work: "for (i <- 0 til qn) qx[fa] append= 1",
             check: st, expect: |s| format!("[{},{},7]", 2 * s.n, s.n), check_alias: sta, expect_alias: orig_struct,
             nelem: n_of, k: n_of, copied: flat, in_model: false },
+        // ------------------------------------------------------------------ a collection held under a dict key
+        // (the operator-assignment must take the value OUT of the dict entry before the operator runs)
+        Family { name: "dk_append", kind: Kind::List, setup: DK_SETUP, work: "for (i <- 0 til qn) qx[\"a\"] append= i",
+            check: "[len(qx[\"a\"]), sum(qx[\"a\"])]", expect: |s| format!("[{},{}]", 2 * s.n, tri(s.n)),
+            check_alias: "[len(qy[\"a\"]), sum(qy[\"a\"])]", expect_alias: orig_list,
+            nelem: n_of, k: n_of, copied: flat, in_model: false },
+        Family { name: "dk_concat", kind: Kind::List, setup: DK_SETUP, work: "for (i <- 0 til qn) qx[\"a\"] ++= [i]",
+            check: "[len(qx[\"a\"]), sum(qx[\"a\"])]", expect: |s| format!("[{},{}]", 2 * s.n, tri(s.n)),
+            check_alias: "[len(qy[\"a\"]), sum(qy[\"a\"])]", expect_alias: orig_list,
+            nelem: n_of, k: n_of, copied: flat, in_model: false },
+        Family { name: "dk_opidx", kind: Kind::List, setup: DK_SETUP, work: "for (i <- 0 til qn) qx[\"a\"][i] += 1",
+            check: "[len(qx[\"a\"]), sum(qx[\"a\"])]", expect: |s| format!("[{},{}]", s.n, s.n),
+            check_alias: "[len(qy[\"a\"]), sum(qy[\"a\"])]", expect_alias: orig_list,
+            nelem: n_of, k: n_of, copied: flat, in_model: false },
+        Family { name: "dk_set", kind: Kind::List, setup: DK_SETUP, work: "for (i <- 0 til qn) qx[\"a\"][i] = 1",
+            check: "[len(qx[\"a\"]), sum(qx[\"a\"])]", expect: |s| format!("[{},{}]", s.n, s.n),
+            check_alias: "[len(qy[\"a\"]), sum(qy[\"a\"])]", expect_alias: orig_list,
+            nelem: n_of, k: n_of, copied: flat, in_model: false },
+        Family { name: "dk_addkey", kind: Kind::Dict, setup: "qx := {\"a\": {}}; for (i <- 0 til qn) qx[\"a\"][i] = i",
+            work: "for (i <- 0 til qn) qx[\"a\"] |.= i + qn",
+            check: "[len(qx[\"a\"]), sum(keys(qx[\"a\"]))]", expect: |s| format!("[{},{}]", 2 * s.n, tri(2 * s.n)),
+            check_alias: "[len(qy[\"a\"]), sum(keys(qy[\"a\"]))]", expect_alias: orig_dict,
+            nelem: n_of, k: n_of, copied: flat, in_model: false },
+        Family { name: "dk_multi", kind: Kind::List, setup: "qx := {1: [0] ** qn, 2: [0] ** qn}",
+            work: "for (i <- 0 til qn) qx[1 + i % 2] append= i",
+            check: "[len(qx[1]) + len(qx[2]), sum(qx[1]) + sum(qx[2])]", expect: |s| format!("[{},{}]", 3 * s.n, tri(s.n)),
+            check_alias: "[len(qy[1]) + len(qy[2]), sum(qy[1]) + sum(qy[2])]", expect_alias: |s| format!("[{},0]", 2 * s.n),
+            nelem: |s| 2 * s.n, k: n_of, copied: |s| (0, 2 * s.n), in_model: false },
+        Family { name: "dld_append", kind: Kind::List, setup: DLD_SETUP, work: "for (i <- 0 til qn) qx[\"a\"][0][\"b\"] append= i",
+            check: "[len(qx[\"a\"][0][\"b\"]), sum(qx[\"a\"][0][\"b\"])]", expect: |s| format!("[{},{}]", 2 * s.n, tri(s.n)),
+            check_alias: "[len(qy[\"a\"][0][\"b\"]), sum(qy[\"a\"][0][\"b\"])]", expect_alias: orig_list,
+            nelem: n_of, k: n_of, copied: flat, in_model: false },
+        Family { name: "dld_set", kind: Kind::List, setup: DLD_SETUP, work: "for (i <- 0 til qn) qx[\"a\"][0][\"b\"][i] = 1",
+            check: "[len(qx[\"a\"][0][\"b\"]), sum(qx[\"a\"][0][\"b\"])]", expect: |s| format!("[{},{}]", s.n, s.n),
+            check_alias: "[len(qy[\"a\"][0][\"b\"]), sum(qy[\"a\"][0][\"b\"])]", expect_alias: orig_list,
+            nelem: n_of, k: n_of, copied: flat, in_model: false },
+        Family { name: "ld_append", kind: Kind::List, setup: "qx := [{\"b\": [0] ** qn}]", work: "for (i <- 0 til qn) qx[0][\"b\"] append= i",
+            check: "[len(qx[0][\"b\"]), sum(qx[0][\"b\"])]", expect: |s| format!("[{},{}]", 2 * s.n, tri(s.n)),
+            check_alias: "[len(qy[0][\"b\"]), sum(qy[0][\"b\"])]", expect_alias: orig_list,
+            nelem: n_of, k: n_of, copied: flat, in_model: false },
+        Family { name: "sd_append", kind: Kind::List, setup: SD_SETUP, work: "for (i <- 0 til qn) qx[fa][\"a\"] append= i",
+            check: "[len(qx[fa][\"a\"]), sum(qx[fa][\"a\"]), qx[fb]]", expect: |s| format!("[{},{},7]", 2 * s.n, tri(s.n)),
+            check_alias: "[len(qy[fa][\"a\"]), sum(qy[fa][\"a\"]), qy[fb]]", expect_alias: orig_struct,
+            nelem: n_of, k: n_of, copied: flat, in_model: false },
+        Family { name: "sd_set", kind: Kind::List, setup: SD_SETUP, work: "for (i <- 0 til qn) qx[fa][\"a\"][i] = 1",
+            check: "[len(qx[fa][\"a\"]), sum(qx[fa][\"a\"]), qx[fb]]", expect: |s| format!("[{},{},7]", s.n, s.n),
+            check_alias: "[len(qy[fa][\"a\"]), sum(qy[fa][\"a\"]), qy[fb]]", expect_alias: orig_struct,
+            nelem: n_of, k: n_of, copied: flat, in_model: false },
+        // default dicts: a list stored under a key, and a list materialised from the default value
+        Family { name: "defdict_append", kind: Kind::List, setup: "qx := {:0}; qx[\"a\"] = [0] ** qn",
+            work: "for (i <- 0 til qn) qx[\"a\"] append= i",
+            check: "[len(qx[\"a\"]), sum(qx[\"a\"])]", expect: |s| format!("[{},{}]", 2 * s.n, tri(s.n)),
+            check_alias: "[len(qy[\"a\"]), sum(qy[\"a\"])]", expect_alias: orig_list,
+            nelem: n_of, k: n_of, copied: flat, in_model: false },
+        Family { name: "defdict_fresh", kind: Kind::List, setup: "qx := {:[]}", work: "for (i <- 0 til qn) qx[\"a\"] append= i",
+            check: "[len(qx[\"a\"]), sum(qx[\"a\"])]", expect: |s| format!("[{},{}]", s.n, tri(s.n)),
+            check_alias: "[len(qy[\"a\"]), sum(qy[\"a\"])]", expect_alias: |_| "[0,0]".into(),
+            // n = the size the list grows to (it starts as the default value): keeps x = n + k comparable
+            nelem: n_of, k: n_of, copied: |_| (0, 0), in_model: false },
     ]
+}
+
+/// declared type of `qx` in the `@typed` variant of a family
+fn declared_type(name: &str) -> &'static str {
+    let p = name.split('_').next().unwrap_or("");
+    match p {
+        "list" | "rows" | "wide" | "ld" => "list",
+        "dict" | "dk" | "dld" | "defdict" => "dict",
+        "vec" => "vector",
+        "bytes" => "bytes",
+        "str" => "str",
+        "struct" | "sd" => "Foo",
+        _ => "list",
+    }
+}
+/// the same family with the variable declared with a type annotation (`qx: list = ...`): assignments then go
+/// through the type-checking arm of assign_respecting_type, which must not copy the value either
+fn typed(f: &Family) -> Family {
+    let mut g = *f;
+    g.name = Box::leak(format!("{}@typed", f.name).into_boxed_str());
+    let decl = format!("qx: {} = ", declared_type(f.name));
+    assert!(f.setup.contains("qx := "));
+    g.setup = Box::leak(f.setup.replacen("qx := ", &decl, 1).into_boxed_str());
+    g
 }
 
 /// the genuinely quadratic control: the alias is re-taken before every statement
@@ -281,6 +368,7 @@ fn control_family() -> Family {
 // the model request (statement tokens of Driver/C01.lean); variables: 0 = qx, 1 = qy, 2 = scratch
 // (nested families: 1 = qx, 0 = row under construction, 2 = qy)
 fn model_request(name: &str, s: &Sz, aliased: bool) -> Option<String> {
+    let name = name.trim_end_matches("@typed"); // a type annotation does not change the model's history
     let n = s.n;
     let mut t: Vec<String> = vec![];
     let (holders, nn): (u64, u64);
@@ -594,7 +682,10 @@ fn main() {
         "every workload family (lists: x[i]=v, append=, ++=, x[i] f= v, pop, remove at end, consume round trip; \
          dicts: new keys, overwrite, |.=, x[k] f= v, -.=, remove, ||=; vectors/bytes: x[i]=v, append=, x[i] f= v; strings: \
          single-byte assignment; nested rows (square unshared, square shared payload, 4 wide rows): x[i][j]=v, x[i] append=; \
-         struct fields: x[f][i]=v, x[f] append=) x (unaliased, once-aliased) x sizes n0={}, 2 n0, 4 n0 with k = n \
+         struct fields: x[f][i]=v, x[f] append=; a collection held under a dict key, incl. int keys, two keys, \
+         dict-of-list-of-dict, list-of-dict, struct-field-of-dict, default dicts: d[k] append=, ++=, |.=, d[k][i] f= v, \
+         d[k][i] = v) x (variable declared with `:=`, declared with a type annotation `qx: list = ..` = `@typed`) x \
+         (unaliased, once-aliased) x sizes n0={}, 2 n0, 4 n0 with k = n \
          statements, each in a fresh interpreter; bytes requested from the global allocator during evaluate() of the \
          workload only; a case is one (family, variant, size) measurement; plus the quadratic control (self-test)",
         n0
@@ -602,6 +693,8 @@ fn main() {
     let _ = Rng::new(args.seed); // the workloads are deterministic: nothing is drawn from the seed
 
     let mut fams = families();
+    let typed_fams: Vec<Family> = fams.iter().map(typed).collect();
+    fams.extend(typed_fams);
     fams.push(control_family());
     let control_idx = fams.len() - 1;
 
@@ -623,7 +716,7 @@ fn main() {
                     checks.push((f.check_alias.to_string(), (f.expect_alias)(s)));
                 }
                 // "big" request = at least half of one full copy of the payload
-                let thresh = (f.nelem)(s) * elem_size(f.kind) / 2;
+                let thresh = (f.nelem)(s).max((f.k)(s)) * elem_size(f.kind) / 2;
                 let m = measure(&s.prelude(), &setup, f.work, thresh, &checks);
                 let input = format!("{} ;; {} ;; n={}", setup, f.work, s.n);
                 rep.case(&input, true);
